@@ -972,6 +972,40 @@ pub mod persist {
             Ok(buf)
         }
 
+        /// Verification hook (compiled only with `--cfg fuse_backend_rs_verif`): serialise the
+        /// state the way a binary speaking snapshot root version `version` wrote it
+        /// (version 1 = before per-mount id mappings were persisted).
+        #[cfg(fuse_backend_rs_verif)]
+        pub fn verif_save_to_bytes_at(&self, version: u16) -> VfsResult<Vec<u8>> {
+            let root_state = self
+                .root
+                .save_to_bytes()
+                .map_err(|e| VfsError::Persist(format!("Failed to save Vfs root: {:?}", e)))?;
+            let mappings = self.mount_id_mappings.load();
+            let mount_id_mappings: Vec<Option<IdMappingState>> = mappings
+                .iter()
+                .map(|m| {
+                    m.map(|(i, e, r)| IdMappingState {
+                        internal_id: i,
+                        external_id: e,
+                        range: r,
+                    })
+                })
+                .collect();
+            let vfs_state = VfsState {
+                options: self.opts.load().deref().deref().save(),
+                root: root_state,
+                next_super: self.next_super.load(Ordering::SeqCst),
+                mount_id_mappings,
+            };
+            let mut s = Snapshot::new(Vfs::get_version_map(), version);
+            let mut buf = Vec::new();
+            s.save(&mut buf, &vfs_state).map_err(|e| {
+                VfsError::Persist(format!("Failed to save Vfs using snapshot: {:?}", e))
+            })?;
+            Ok(buf)
+        }
+
         /// Restores part of the Vfs metadata from a byte array.
         /// For more information, see the example of `save_to_bytes`.
         pub fn restore_from_bytes(&self, buf: &mut Vec<u8>) -> VfsResult<()> {
